@@ -1,7 +1,9 @@
 package main
 
 import (
+	"fmt"
 	"go/ast"
+	"go/token"
 	"go/types"
 )
 
@@ -90,7 +92,170 @@ func (x *Exec) newMap(st *State, ty *Ty, mt *types.Map) Val {
 	return Val{T: m, Ty: ty}
 }
 
+// rangeMap: for key := range m { body }.
+//
+// The idiom `for k := range m { delete(m, k) }` is the map-clearing loop (the
+// Go compiler recognises it as such): m becomes empty.
+//
+// Otherwise the loop is cut at its invariant like every other loop. The
+// iteration order is arbitrary, so a ghost set of visited keys (`visited(key)`
+// in the invariants of this loop, `visited(key, N)` for an enclosing loop N)
+// takes the place of the index: each iteration picks an arbitrary key that
+// is present in m and not yet visited; the loop is left when every key present
+// in m is visited. That exit fact needs the key set of m to be the same at
+// the end of the body as at its beginning (Go leaves it unspecified whether
+// keys inserted during the iteration are produced), which is an obligation
+// (`safe:rangekeys`). Values stored under existing keys may change.
 func (x *Exec) rangeMap(s *ast.RangeStmt, st *State, label string) outcome {
-	x.unsupported(s, "range over maps is outside the translated subset")
-	panic("unreachable")
+	mt := x.info().Types[s.X].Type.Underlying().(*types.Map)
+	if id, ok := s.Value.(*ast.Ident); s.Value != nil && !(ok && id.Name == "_") {
+		x.unsupported(s, "range over a map with a value variable is not supported")
+	}
+	keyName := ""
+	if id, ok := s.Key.(*ast.Ident); ok && id.Name != "_" {
+		keyName = id.Name
+	}
+	m := x.expr(s.X, st)
+	_, _, pn, ph, kt, _ := x.mapHeaps(st, mt)
+	ks := x.w.sortOf(kt, x.model)
+	if x.isMapClear(s, keyName) {
+		x.cur().loopOrd++
+		x.recordWrite(st, pn, m.T, nil, nil, nil, nil)
+		ln, lh := x.mapLenHeap(st, mt)
+		st.heaps[pn] = Store(ph, m.T, mk("(as const "+string(ArrSort(ks, SBool))+")", ArrSort(ks, SBool), tFalse))
+		st.heaps[ln] = Store(lh, m.T, IntLit(0))
+		return outcome{normal: st}
+	}
+	lc, ord := x.loopContract(s, keyName)
+	bodyPos := s.Body.Lbrace
+	var keyObj *types.Var
+	if keyName != "" {
+		if s.Tok == token.DEFINE {
+			keyObj = x.info().Defs[s.Key.(*ast.Ident)].(*types.Var)
+		} else {
+			keyObj = x.info().ObjectOf(s.Key.(*ast.Ident)).(*types.Var)
+		}
+		if x.heapified[keyObj] {
+			x.unsupported(s, "address-taken range variable")
+		}
+	}
+	seenSort := ArrSort(ks, SBool)
+	seenObj := types.NewVar(token.NoPos, nil, fmt.Sprintf("_seen%d", ord), types.Typ[types.Bool])
+	seenTy := &Ty{K: TOpaque, Name: "seen"}
+	st.vars[seenObj] = mk("(as const "+string(seenSort)+")", seenSort, tFalse)
+	extra := func(s *State) map[string]Val {
+		return map[string]Val{"_seen": {T: s.vars[seenObj], Ty: seenTy}}
+	}
+	bindKey := func(s *State, t *Term) {
+		if keyObj != nil {
+			s.vars[keyObj] = t
+		}
+	}
+	arb := x.sym.Fresh("mapkey", ks)
+	st.assume(x.typeInv(arb, kt, st.alloc))
+	bindKey(st, arb)
+	env := x.invEnv(st, bodyPos, extra(st))
+	invs := x.usableInvs(lc, env, ord)
+	for i, inv := range invs {
+		x.oblige(st, "loop", fmt.Sprintf("%d:init:%s", ord, invLabel(inv, i)), env.evalBool(inv.E), s.Pos(), inv.Src)
+	}
+	preLoop := st.clone()
+	x.havocLoop(st, lc, ord, bodyPos, s.Body)
+	seen := x.sym.Fresh("seen", seenSort)
+	st.vars[seenObj] = seen
+	key := x.sym.Fresh("mapkey", ks)
+	st.assume(x.typeInv(key, kt, st.alloc))
+	bindKey(st, key)
+	env = x.invEnv(st, bodyPos, extra(st))
+	x.assumeInvs(st, lc, env, invs)
+	present := func(s *State) *Term {
+		_, _, _, ph, _, _ := x.mapHeaps(s, mt)
+		return s.sel(ph, m.T)
+	}
+	headKeys := present(st)
+	exitSt := st.clone()
+	{
+		b := BoundVar{Name: x.freshBound("mk"), Sort: ks}
+		bt := mk(b.Name, ks)
+		exitSt.assume(Forall([]BoundVar{b}, Implies(Select(headKeys, bt), Select(seen, bt)), Select(headKeys, bt)))
+	}
+	bodySt := st
+	bodySt.assume(Select(headKeys, key))
+	bodySt.assume(Not(Select(seen, key)))
+	pop := x.pushLoopScope(lc, ord, preLoop, bodyPos)
+	bo := x.block(s.Body.List, bodySt)
+	pop()
+	var out outcome
+	ends := []*State{}
+	if bo.normal != nil {
+		ends = append(ends, bo.normal)
+	}
+	ends = append(ends, bo.continues[""]...)
+	delete(bo.continues, "")
+	if label != "" {
+		ends = append(ends, bo.continues[label]...)
+		delete(bo.continues, label)
+	}
+	exits := []*State{exitSt}
+	exits = append(exits, bo.breaks[""]...)
+	delete(bo.breaks, "")
+	if label != "" {
+		exits = append(exits, bo.breaks[label]...)
+		delete(bo.breaks, label)
+	}
+	out.absorb(bo)
+	if end := x.mergeAll(ends); end != nil {
+		x.anchoredAsserts(fmt.Sprintf("loop%d:end", ord), ord, end, bodyPos)
+		x.safe(end, "rangekeys", Eq(present(end), headKeys), s)
+		end.vars[seenObj] = Store(seen, key, tTrue)
+		arb2 := x.sym.Fresh("mapkey", ks)
+		end.assume(x.typeInv(arb2, kt, end.alloc))
+		bindKey(end, arb2)
+		env := x.invEnv(end, bodyPos, extra(end))
+		for i, inv := range invs {
+			x.oblige(end, "loop", fmt.Sprintf("%d:pres:%s", ord, invLabel(inv, i)), env.evalBool(inv.E), s.Pos(), inv.Src)
+		}
+	}
+	out.normal = x.mergeAll(exits)
+	if out.normal != nil {
+		delete(out.normal.vars, seenObj)
+	}
+	x.exitAsserts(ord, out.normal, s.End())
+	return out
+}
+
+// isMapClear: `for k := range m { delete(m, k) }` with m a plain expression.
+func (x *Exec) isMapClear(s *ast.RangeStmt, keyName string) bool {
+	if keyName == "" || len(s.Body.List) != 1 {
+		return false
+	}
+	es, ok := s.Body.List[0].(*ast.ExprStmt)
+	if !ok {
+		return false
+	}
+	call, ok := es.X.(*ast.CallExpr)
+	if !ok || len(call.Args) != 2 {
+		return false
+	}
+	if id, ok := call.Fun.(*ast.Ident); !ok || id.Name != "delete" {
+		return false
+	} else if _, isB := x.info().ObjectOf(id).(*types.Builtin); !isB {
+		return false
+	}
+	if k, ok := call.Args[1].(*ast.Ident); !ok || k.Name != keyName {
+		return false
+	}
+	return exprText(call.Args[0]) == exprText(s.X) && isPlainRef(s.X)
+}
+
+func isPlainRef(e ast.Expr) bool {
+	switch e := e.(type) {
+	case *ast.Ident:
+		return true
+	case *ast.SelectorExpr:
+		return isPlainRef(e.X)
+	case *ast.ParenExpr:
+		return isPlainRef(e.X)
+	}
+	return false
 }
